@@ -14,34 +14,34 @@ From Coq Require Import ZArith List Bool.
 Import ListNotations.
 Local Open Scope Z_scope.
 
-Inductive outcome := Done (calls : list Z) | OutOfFuel.
+Inductive pfout := PDone (calls : list Z) | POutOfFuel.
 
 (** parallel_for_aux after commit 9a6e214 *)
-Fixpoint pf_aux (fuel : nat) (first a b step : Z) : outcome :=
+Fixpoint pf_aux (fuel : nat) (first a b step : Z) : pfout :=
   match fuel with
-  | O => OutOfFuel
+  | O => POutOfFuel
   | S f =>
-    if b - a <=? 0 then Done []
-    else if b - a =? 1 then Done [first + a * step]
+    if b - a <=? 0 then PDone []
+    else if b - a =? 1 then PDone [first + a * step]
     else
       let c := a + Z.quot (b - a) 2 in
       match pf_aux f first a c step, pf_aux f first c b step with
-      | Done l, Done r => Done (l ++ r)
-      | _, _ => OutOfFuel
+      | PDone l, PDone r => PDone (l ++ r)
+      | _, _ => POutOfFuel
       end
   end.
 
 (** parallel_for_aux as it was before that commit: [b - a == 1] is the only base case *)
-Fixpoint pf_aux_prefix (fuel : nat) (first a b step : Z) : outcome :=
+Fixpoint pf_aux_prefix (fuel : nat) (first a b step : Z) : pfout :=
   match fuel with
-  | O => OutOfFuel
+  | O => POutOfFuel
   | S f =>
-    if b - a =? 1 then Done [first + a * step]
+    if b - a =? 1 then PDone [first + a * step]
     else
       let c := a + Z.quot (b - a) 2 in
       match pf_aux_prefix f first a c step, pf_aux_prefix f first c b step with
-      | Done l, Done r => Done (l ++ r)
-      | _, _ => OutOfFuel
+      | PDone l, PDone r => PDone (l ++ r)
+      | _, _ => POutOfFuel
       end
   end.
 
@@ -49,11 +49,11 @@ Fixpoint pf_aux_prefix (fuel : nat) (first a b step : Z) : outcome :=
 Definition count3 (first last step : Z) : Z := Z.quot (last - first + step - 1) step.
 
 (** parallel_for(first, last, step, f) *)
-Definition pf3 (fuel : nat) (first last step : Z) : outcome :=
+Definition pf3 (fuel : nat) (first last step : Z) : pfout :=
   pf_aux fuel first 0 (count3 first last step) step.
 
 (** parallel_for(first, last, f) *)
-Definition pf2 (fuel : nat) (first last : Z) : outcome :=
+Definition pf2 (fuel : nat) (first last : Z) : pfout :=
   pf_aux fuel first 0 (last - first) 1.
 
 (** ** grain-size variant: the body receives a pair [(first + a*step, first + b*step)];
